@@ -14,9 +14,9 @@ import (
 // FindCase is one case of scenario find (C17). Level 0 is $HOME of the
 // simulated user (w.Home); level i is i directories below it.
 type FindCase struct {
-	Levels []FLevel `json:"levels"` // contents of level 0..depth
-	Start  int      `json:"start"`  // level index
-	Stop   int      `json:"stop"`   // level index, or -1 = the unrelated directory
+	Levels []FLevel `json:"levels"`         // contents of level 0..depth
+	Start  int      `json:"start"`          // level index
+	Stop   int      `json:"stop"`           // level index, or -1 = the unrelated directory
 	Gone   bool     `json:"gone,omitempty"` // the start directory does not exist
 	CLI    bool     `json:"cli"`            // also run `spok --show` with cwd=start, HOME=stop
 }
